@@ -47,6 +47,10 @@ func applySafe(inst SeqInst, ev int, check bool) (sig, d string) {
 			if strings.HasPrefix(msg, "INFRASTRUCTURE:") || sched.Active() {
 				panic(r)
 			}
+			if msg == sched.BudgetExceeded {
+				sig, d = "the call does not terminate", msg
+				return
+			}
 			first := msg
 			if i := strings.IndexByte(first, '\n'); i >= 0 {
 				first = first[:i]
